@@ -277,7 +277,7 @@ static void run_direct(vf::Ctx& ctx, const std::string& tag, bool clean, int kin
         Eigen::Map<const Vec> mv(v0.data(), n);
         fac.init(mv, nops);
         fac.factorize_from(1, m, nops);
-        const long nrestart = clean ? r.range(1, ctx.thorough ? 60 : 25) : r.range(1, ctx.thorough ? 200 : 40);
+        const long nrestart = clean ? r.range(1, ctx.thorough ? 60 : 25) : r.range(1, 40);   // corpus cases are the same in both tiers
         for (long it = 0; it < nrestart; it++)
         {
             const int k = (int) r.range(1, m - (LAN ? 1 : 2));
